@@ -12,13 +12,13 @@ import (
 type Kind int
 
 const (
-	KSign1        Kind = iota // tag 18 + 4-array
-	KSign1Untagged            // bare 4-array
-	KSign                     // tag 98 + 4-array
-	KSignature                // 3-array (COSE_Signature and COSE_Countersignature)
-	KCountersignature         // same wire shape as KSignature, separate decoder
-	KProtected                // bstr wrapping a header map (ProtectedHeader decoder)
-	KUnprotected              // header map (UnprotectedHeader decoder)
+	KSign1            Kind = iota // tag 18 + 4-array
+	KSign1Untagged                // bare 4-array
+	KSign                         // tag 98 + 4-array
+	KSignature                    // 3-array (COSE_Signature and COSE_Countersignature)
+	KCountersignature             // same wire shape as KSignature, separate decoder
+	KProtected                    // bstr wrapping a header map (ProtectedHeader decoder)
+	KUnprotected                  // header map (UnprotectedHeader decoder)
 	NumKinds
 )
 
@@ -333,18 +333,18 @@ func labelOK(k *rc.Node) bool {
 
 // Registered header labels.
 const (
-	LAlg   = 1
-	LCrit  = 2
-	LCty   = 3
-	LKid   = 4
-	LIV    = 5
-	LPIV   = 6
-	LCsig  = 7
-	LCsig0 = 9
-	LCsig2 = 11
-	LCs02  = 12
-	LCWT   = 15
-	LTyp   = 16
+	LAlg     = 1
+	LCrit    = 2
+	LCty     = 3
+	LKid     = 4
+	LIV      = 5
+	LPIV     = 6
+	LCsig    = 7
+	LCsig0   = 9
+	LCsig2   = 11
+	LCs02    = 12
+	LCWT     = 15
+	LTyp     = 16
 	LHashAlg = 258
 	LPreCty  = 259
 	LLoc     = 260
